@@ -26,6 +26,19 @@ pub fn hard_kind(cx: &Cx) -> io::ErrorKind {
     ])
 }
 
+/// A hard (non-retryable) I/O failure: built from a kind, or -- one time in four -- from a raw OS
+/// error number, as real file descriptors report them (`raw_os_error()` is `Some`). EINTR is not
+/// among them: an interrupted call is retryable and has its own fault kind.
+pub fn hard_error(cx: &Cx, what: &'static str) -> io::Error {
+    if cx.chance(1, 4) {
+        cx.probe("hard_error_with_os_code");
+        // EAGAIN, EIO, ETIMEDOUT, EPIPE, ENODEV, ECONNRESET
+        io::Error::from_raw_os_error(*cx.pick(&[11, 5, 110, 32, 19, 104]))
+    } else {
+        io::Error::new(hard_kind(cx), what)
+    }
+}
+
 #[derive(Clone, Debug)]
 pub enum Frag {
     /// Sizes are drawn from the tape: 1..=min(buf.len(), available).
@@ -141,7 +154,7 @@ impl Read for SimStream {
         if self.fail_at == Some(idx) {
             self.failed = true;
             self.cx.fault("io_error");
-            return Err(io::Error::new(hard_kind(&self.cx), "simulated read failure"));
+            return Err(hard_error(&self.cx, "simulated read failure"));
         }
         if self.eintr_at == Some(idx) {
             self.placed_fired = true;
@@ -193,6 +206,40 @@ impl Read for SimStream {
         }
         Ok(n)
     }
+
+    fn read_vectored(&mut self, bufs: &mut [io::IoSliceMut<'_>]) -> io::Result<usize> {
+        if self.vectored {
+            return self.scatter(bufs);
+        }
+        match bufs.iter_mut().find(|b| !b.is_empty()) {
+            Some(b) => self.read(b),
+            None => self.read(&mut []),
+        }
+    }
+}
+
+impl SimStream {
+    /// Native scatter read (when `vectored` is set): one call fills the buffers one after the
+    /// other, as files, sockets, `&[u8]` and `Cursor` do. Otherwise the standard behaviour (only
+    /// the first non-empty buffer is used), which is what serial ports have.
+    fn scatter(&mut self, bufs: &mut [io::IoSliceMut<'_>]) -> io::Result<usize> {
+        let total: usize = bufs.iter().map(|b| b.len()).sum();
+        let mut tmp = vec![0u8; total];
+        let n = self.read(&mut tmp)?;
+        let mut done = 0;
+        for b in bufs.iter_mut() {
+            if done >= n {
+                break;
+            }
+            let k = b.len().min(n - done);
+            b[..k].copy_from_slice(&tmp[done..done + k]);
+            done += k;
+        }
+        if bufs.len() > 1 {
+            self.cx.probe("native_vectored_read");
+        }
+        Ok(n)
+    }
 }
 
 impl Write for SimStream {
@@ -202,7 +249,7 @@ impl Write for SimStream {
         if self.fail_at == Some(idx) {
             self.failed = true;
             self.cx.fault("io_error");
-            return Err(io::Error::new(hard_kind(&self.cx), "simulated write failure"));
+            return Err(hard_error(&self.cx, "simulated write failure"));
         }
         if self.zero_at == Some(idx) {
             self.cx.fault("write_zero");
@@ -266,7 +313,7 @@ impl Write for SimStream {
         if self.fail_at == Some(idx) {
             self.failed = true;
             self.cx.fault("io_error");
-            return Err(io::Error::new(hard_kind(&self.cx), "simulated flush failure"));
+            return Err(hard_error(&self.cx, "simulated flush failure"));
         }
         Ok(())
     }
@@ -637,7 +684,7 @@ impl Wire for ScriptWire {
         self.op_index += 1;
         let res: io::Result<usize> = if self.fail_at == Some(idx) {
             self.cx.fault("io_error");
-            Err(io::Error::new(hard_kind(&self.cx), "simulated port read failure"))
+            Err(hard_error(&self.cx, "simulated port read failure"))
         } else if self.maybe_eintr() {
             Err(io::Error::new(io::ErrorKind::Interrupted, "simulated EINTR"))
         } else {
@@ -682,7 +729,7 @@ impl Wire for ScriptWire {
         self.op_index += 1;
         let res: io::Result<usize> = if self.fail_at == Some(idx) {
             self.cx.fault("io_error");
-            Err(io::Error::new(hard_kind(&self.cx), "simulated port write failure"))
+            Err(hard_error(&self.cx, "simulated port write failure"))
         } else if self.maybe_eintr() {
             Err(io::Error::new(io::ErrorKind::Interrupted, "simulated EINTR"))
         } else if buf.is_empty() {
